@@ -18,6 +18,14 @@ CLAIMS = {
    text="Invariant proof (Lean 4) over the commit-pipeline transition system whose steps are the code's statements between yield points, for every number of threads, batch sizes and every interleaving: the horizon is monotone (C05_visible_mono), publication is FIFO and only of applied batches (C05_publish_fifo), the horizon is never strictly inside a batch (C05_horizon_on_batch_boundary), queued batches are invisible (C05_queued_invisible), every non-failed batch at or below the horizon is completely applied (C05_atomic_partial), a commit reports ok only once the horizon covers it (C05_ok_implies_visible). Failed batches are the excluded family: their applied prefix becomes visible (kernel-checked witness, known finding shared with C15). The model is replayed against the real CommitPipeline under controlled schedules at the verif_yield! points.",
    note="Trusted: Lean kernel + standard axioms; transcription of src/commit.rs; atomicity of one step between yield points; tokio primitives by documented semantics; the schedule controller. Partial: real-thread races finer than the yield granularity are not exhibited.",
    technique="Lean 4 invariant proof over an interleaving transition system + schedule-controlled differential correspondence", ref="DESIGN.md §6 C05"),
+ "C17": dict(
+   text="Invariant proof (Lean 4, every thread count and interleaving, all failure branches): with the permit owned by the batch object the commit ring never overflows and the overflow panic is unreachable (C17_queue_never_overflows, via the permit-ownership invariant PermInv), for any permit count not above the ring size (constants regenerated). The schedule that overflowed before the fix is replayed in the kernel and on the real pipeline. Liveness (every call returns, close returns) is checked per explored schedule by a deterministic drain with a watchdog, not proved: partial.",
+   note="Trusted: Lean kernel + standard axioms; transcription of src/commit.rs; tokio Semaphore/oneshot semantics; schedule controller. Not modelled yet: write-stall controller, TaskManager, close(); real-runtime starvation cannot be exhibited by the model.",
+   technique="Lean 4 invariant proof (permit ownership) + schedule-controlled differential correspondence with hang/panic watchdog", ref="DESIGN.md §6 C17"),
+ "C15": dict(
+   text="Proof (Lean 4) at the pipeline level: a commit refused by the conflict check changes nothing observable (C15_refused_commit_leaves_no_trace); after any failure (conflict, WAL error, apply error at any entry, in any interleaving) all pipeline invariants still hold, so later commits keep the C05/C17 guarantees (C15_pipeline_survives); the first completion of a batch wins, so a failed batch is never reported committed. The statement 'no write of a failed commit becomes visible' is false of the code for apply failures after a prefix: kernel-checked witness, known finding. Store-level faults are not yet covered: partial.",
+   note="Trusted: Lean kernel + standard axioms; transcription of the failure branches of src/commit.rs; mock environment in the correspondence run. Not covered yet: WAL writer state after a failed append, sticky background errors, arena poisoning.",
+   technique="Lean 4 invariant proof over failure branches + schedule-controlled fault-injection correspondence", ref="DESIGN.md §6 C15"),
 }
 props = [json.loads(l) for l in open('/verif/properties.jsonl')]
 hooks = subprocess.run(["git", "-C", "/repo", "log", "--format=%h %s"], capture_output=True, text=True).stdout.splitlines()
